@@ -26,7 +26,7 @@ DECIDING_MONITORS = ["M-find"]
 MAXI = 2**53 - 1
 POOL = [
     None, True, False,
-    0, 1, -1, 2, 10, MAXI, -MAXI, 2**53, 2**53 + 1, -(2**53) - 1, 10**20, 255, 256, 2147483648,
+    0, 1, -1, 2, 10, MAXI, -MAXI, 2**53, 2**53 + 1, -(2**53) - 1, 10**20, 255, 256, 2147483648, 10**400, -(10**400),
     0.0, -0.0, 1.0, 1.5, -2.5, 1e300, 2.0, 1e-7, 0.3, 0.30000000000000004, 1.0000000001, 1700000000000.5, 1700000000000.25,
     "", "a", "b", "ab", "A", "é", "e\u0301", "\u212a", "K", "\u00df", "ss", "\U0001F600", "￿", "\U00010000", "a\x00", "1", "true", "null",
     [], [1], [1.0], [True], [1, 2], [2, 1], [[1]], [[True]], [None], ["a"], [{"k": 1}], [{"k": True}], [0], [False], [[]],
